@@ -12,7 +12,7 @@ MIRI = {
     "c09": {"seeds": 16, "params": {"cases": 2}, "timeout_s": 1500},
     "c10": {"seeds": 48, "params": {"cases": 3}, "timeout_s": 1500},
     "c05": {"seeds": 32, "params": {"cases": 1}, "timeout_s": 1800},
-    "c06": {"seeds": 48, "params": {"cases": 1}, "timeout_s": 1800},
+    "c06": {"seeds": 48, "params": {"cases": 2}, "timeout_s": 2400},
 }
 TSAN = {
     "c10": {"params": {"cases": 300}, "timeout_s": 1500},
@@ -63,7 +63,7 @@ def run_miri(binary, prop, seed, VERIF, TARGET, log):
 
     def env(k):
         return _env({"RUSTFLAGS": RUSTFLAGS,
-                     "MIRIFLAGS": f"-Zmiri-disable-isolation -Zmiri-seed={k} -Zmiri-ignore-leaks"})
+                     "MIRIFLAGS": f"-Zmiri-disable-isolation -Zmiri-seed={k} -Zmiri-ignore-leaks -Zmiri-tree-borrows"})
 
     t0 = time.time()
     res = {"summary": {"engine": "miri", "binary": binary, "seeds": cfg["seeds"]}, "violations": [], "inconclusive": [], "evaluations": 0}
